@@ -449,23 +449,39 @@ fn pretty_print(output: TokenStream) -> String {
 
 fn pretty_print_rustfmt(tokens: TokenStream) -> String {
     let value = tokens.to_string();
-    // TODO: Return errors?
-    if let Ok(mut proc) = Command::new("rustfmt")
+    // Fall back to the unformatted code if rustfmt is missing or fails for any reason.
+    match rustfmt(&value) {
+        Some(formatted) => formatted,
+        None => value,
+    }
+}
+
+fn rustfmt(value: &str) -> Option<String> {
+    let mut proc = Command::new("rustfmt")
         .arg("--emit=stdout")
         .stdin(Stdio::piped())
         .stdout(Stdio::piped())
         .stderr(Stdio::null())
         .spawn()
-    {
-        let stdin = proc.stdin.as_mut().unwrap();
-        stdin.write_all(value.as_bytes()).unwrap();
+        .ok()?;
 
-        let output = proc.wait_with_output().unwrap();
-        if output.status.success() {
-            return String::from_utf8(output.stdout).unwrap();
-        }
+    // The formatter may exit without reading its input.
+    // Close stdin after writing and always wait for the process to exit.
+    let written = match proc.stdin.take() {
+        Some(mut stdin) => stdin.write_all(value.as_bytes()).is_ok(),
+        None => false,
+    };
+    let output = proc.wait_with_output().ok()?;
+
+    if !written || !output.status.success() {
+        return None;
     }
-    value.to_string()
+    let formatted = String::from_utf8(output.stdout).ok()?;
+    if formatted.is_empty() {
+        None
+    } else {
+        Some(formatted)
+    }
 }
 
 fn indexed_name_to_ident(name: &str, index: u32) -> Ident {
